@@ -1760,7 +1760,7 @@ def judge (prop : String) (lines : List String) : List String :=
   | "C12" => judgeC12 ops
   | "C03" => judgeC03 ops
   | "C09" => judgeC09 ops
-  | "C10" => judgeC10 ops
+  | "C10" => judgeC10 ops ++ (judgeC02 ops).map fun (l : String) => l.replace "C02-" "C10-fetch-"
   | "C11" => judgeC11 ops
   | "C14" => judgeC14 ops
   | "C20" => judgeC20 ops
